@@ -9,7 +9,7 @@ import ast
 from ..absint import FlagEval, TOP
 from ..model import walk_shallow, call_name, is_self_attr, dotted_name, parent, ancestors, enclosing_function
 from ..util import (has_call, find_calls, assigned_value, const_str, unparse, kw, arg_or_kw, enclosing_stmt,
-                    guards_of, call_tail, control_ancestors)
+                    guards_of, call_tail, control_ancestors, name_bound, bound_names)
 from .. import mutate as M
 
 EXPLANATION = ("Rules over HttpSource._byte_it_, DelimSource.read, DiskSink/DiskSource and ArffAttrReader._encoder: inside "
@@ -63,8 +63,15 @@ def r1_stateful_chunks(ctx):
                     why = "decoder is re-created for every chunk"
             ctx.ob("C12.R1", SRC, "HttpSource._byte_it_", c, "text decoding keeps its state across chunk boundaries", ok, detail={"why": why})
         # decompressor
-        dcalls = [c for c in walk_shallow(lp) if isinstance(c, ast.Call) and isinstance(c.func, ast.Name) and c.func.id == "decomp"]
-        dvals = assigned_value(fn, "decomp")
+        DECOMP = (bound_names(fn, lambda v: unparse(v).endswith(".decompress") or isinstance(v, ast.Lambda)) or ["decomp"])[0]
+        dparam = "decomp"
+        if ch is not None:
+            # the nested generator receives the decompressor as its first parameter
+            calls_ch = [c for c in walk_shallow(fn) if isinstance(c, ast.Call) and isinstance(c.func, ast.Name) and c.func.id == ch.name]
+            if calls_ch and calls_ch[0].args and unparse(calls_ch[0].args[0]) == DECOMP and ch.args.args:
+                dparam = ch.args.args[0].arg
+        dcalls = [c for c in walk_shallow(lp) if isinstance(c, ast.Call) and isinstance(c.func, ast.Name) and c.func.id in (dparam, DECOMP)]
+        dvals = assigned_value(fn, DECOMP)
         objs_outside = all(not any(enclosing_stmt(v) in list(walk_shallow(l2)) for l2 in loops) for v in dvals)
         shapes = [unparse(v) for v in dvals]
         ok = bool(dcalls) and objs_outside and len(dvals) >= 3 and sum(1 for s in shapes if s.startswith("zlib.decompressobj(") and s.endswith(".decompress")) == 2
@@ -74,12 +81,14 @@ def r1_stateful_chunks(ctx):
             # a final flush of the decoder after the loop
             pass
     # after the loop an incremental decoder must be flushed, otherwise a truncated tail is silently dropped (informational)
-    whole = [x for x in walk_shallow(fn) if isinstance(x, ast.Return) and "b.read()" in unparse(x)]
-    ctx.ob("C12.R1", SRC, "HttpSource._byte_it_", whole[0] if whole else fn, "the un-chunked arm decodes the whole body at once",
-           len(whole) == 1 and unparse(whole[0].value) == "decomp(b.read()).decode(charset)", stmt="whole-body arm")
+    DECOMP = (bound_names(fn, lambda v: unparse(v).endswith(".decompress") or isinstance(v, ast.Lambda)) or ["decomp"])[0]
+    whole = [x for x in walk_shallow(fn) if isinstance(x, ast.Return) and ".read()" in unparse(x) and "DelimSource" not in unparse(x)]
+    okw = len(whole) == 1 and isinstance(whole[0].value, ast.Call) and call_tail(whole[0].value) == "decode" and [unparse(a) for a in whole[0].value.args] == ["charset"] \
+        and isinstance(whole[0].value.func.value, ast.Call) and unparse(whole[0].value.func.value.func) == DECOMP and unparse(whole[0].value.func.value.args[0]).endswith(".read()")
+    ctx.ob("C12.R1", SRC, "HttpSource._byte_it_", whole[0] if whole else fn, "the un-chunked arm decodes the whole body at once", okw, stmt="whole-body arm")
     rets = [x for x in walk_shallow(fn) if isinstance(x, ast.Return) and "DelimSource(" in unparse(x)]
     ctx.ob("C12.R1", SRC, "HttpSource._byte_it_", rets[0] if rets else fn, "chunked text is re-split into lines by DelimSource",
-           len(rets) == 1 and unparse(rets[0].value) == "DelimSource(IterableSource(chunks(decomp, charset, chunk, bites))).read()", stmt="chunks -> DelimSource")
+           len(rets) == 1 and unparse(rets[0].value) == f"DelimSource(IterableSource(chunks({DECOMP}, charset, chunk, bites))).read()", stmt="chunks -> DelimSource")
 
 
 def r2_terminator_prefixes(ctx):
@@ -88,8 +97,10 @@ def r2_terminator_prefixes(ctx):
                        "joined to the next chunk before it is split again")
     fn = ctx.fn(SRC, "DelimSource.read")
     arm = None
+    SPLIT = name_bound(fn, lambda v: unparse(v) == "not self._delim", "split_lines")
+    PENDING = name_bound(fn, lambda v: isinstance(v, ast.Constant) and v.value is None, "pending")
     for x in fn.body:
-        if isinstance(x, ast.If) and unparse(x.test) == "split_lines":
+        if isinstance(x, ast.If) and unparse(x.test) == SPLIT:
             arm = x
     if arm is None:
         ctx.ob("C12.R2", SRC, "DelimSource.read", fn, "line-splitting arm exists", False, stmt="split_lines arm")
@@ -98,7 +109,7 @@ def r2_terminator_prefixes(ctx):
     ctx.floor("C12.R2", "chunk loop of the line-splitting arm", len(loops), 1)
     lp = loops[0]
     tv = unparse(lp.target)
-    defer_sites = [x for x in walk_shallow(lp) if isinstance(x, ast.Assign) and unparse(x.targets[0]) == "pending" and unparse(x.value) != "None"]
+    defer_sites = [x for x in walk_shallow(lp) if isinstance(x, ast.Assign) and unparse(x.targets[0]) == PENDING and unparse(x.value) != "None"]
     for cls, ch, need in (("CR", "\r", True), ("LF", "\n", False), ("other", "x", True)):
         fe = FlagEval({f"{tv}[-1]": ch}, opaque=lambda e: TOP)
         deferred = False
@@ -115,13 +126,13 @@ def r2_terminator_prefixes(ctx):
         else:
             ctx.ob("C12.R2", SRC, "DelimSource.read", lp, "a chunk ending in LF releases all its lines", not deferred, stmt="no defer on LF", trivial=True)
     # join-before-split
-    joins = [x for x in walk_shallow(lp) if isinstance(x, ast.Assign) and "pending +" in unparse(x.value)]
+    joins = [x for x in walk_shallow(lp) if isinstance(x, ast.Assign) and f"{PENDING} +" in unparse(x.value)]
     splits = [x for x in walk_shallow(lp) if isinstance(x, ast.Assign) and ".splitlines(" in unparse(x.value)]
     ok = bool(joins) and bool(splits) and all(unparse(j.targets[0]).split(",")[0].strip("( ") == tv for j in joins) and min(j.lineno for j in joins) < min(s.lineno for s in splits)
     ctx.ob("C12.R2", SRC, "DelimSource.read", joins[0] if joins else lp,
            "pending text is prepended to the chunk before splitlines() (so a CR|LF pair split over two chunks is seen as one terminator)", ok,
            stmt="join before split", detail={"join": [unparse(j) for j in joins], "split": [unparse(s) for s in splits]})
-    tail = [x for x in fn.body if isinstance(x, ast.If) and "pending is not None" in unparse(x.test)]
+    tail = [x for x in fn.body if isinstance(x, ast.If) and f"{PENDING} is not None" in unparse(x.test) and any(isinstance(y, ast.Yield) for y in walk_shallow(x))]
     ctx.ob("C12.R2", SRC, "DelimSource.read", tail[0] if tail else fn, "a pending tail is emitted at the end of the stream", bool(tail), stmt="flush pending")
 
 
@@ -136,13 +147,16 @@ def r3_framing(ctx):
     ok = len(wp) == 1 and len(rp) == 1 and norm(wp[0]) == norm(rp[0])
     ctx.ob("C12.R3", SNK, "DiskSink.__enter__", enter, "writer and reader choose gzip by the same predicate on the path", ok, detail={"writer": wp, "reader": rp}, stmt="gz predicate")
     wcalls = [c for c in walk_shallow(wr) if isinstance(c, ast.Call) and unparse(c.func) == "self._file.write"]
-    ok = len(wcalls) == 1 and unparse(wcalls[0].args[0]) == "(line + '\\n').encode('utf-8')"
+    lps = [a for a in ancestors(wcalls[0]) if isinstance(a, ast.For)] if wcalls else []
+    LV = unparse(lps[0].target) if lps else "line"
+    ok = len(wcalls) == 1 and unparse(wcalls[0].args[0]) == f"({LV} + '\\n').encode('utf-8')"
     ctx.ob("C12.R3", SNK, "DiskSink.write", wcalls[0] if wcalls else wr, "each line is written as utf-8 bytes followed by exactly one LF", ok)
     strips = [c for c in walk_shallow(rd) if isinstance(c, ast.Call) and call_tail(c) in ("rstrip", "strip")]
-    ok = len(strips) == 1 and unparse(strips[0]) == "line.rstrip('\\r\\n')"
+    RL = (bound_names(rd, lambda v: isinstance(v, ast.Call) and call_tail(v) == "readline") or ["line"])[0]
+    ok = len(strips) == 1 and unparse(strips[0]) == f"{RL}.rstrip('\\r\\n')"
     ctx.ob("C12.R3", SRC, "DiskSource.read", strips[0] if strips else rd, "the reader strips only the line terminator", ok)
     loopc = [x for x in walk_shallow(rd) if isinstance(x, ast.While)]
-    ok = len(loopc) == 1 and unparse(loopc[0].test) == "line != ''"
+    ok = len(loopc) == 1 and unparse(loopc[0].test) == f"{RL} != ''"
     ctx.ob("C12.R3", SRC, "DiskSource.read", loopc[0] if loopc else rd, "reading stops only at end of file (an empty line is '\\n', not '')", ok, stmt="eof test")
     init = ctx.fn(SRC, "DiskSource.__init__")
     names = [a.arg for a in init.args.args]
@@ -183,7 +197,9 @@ def r4_arff_keywords(ctx):
     ok = bool(chain_ifs) and any(isinstance(s, ast.Raise) for s in last_else)
     ctx.ob("C12.R4", RDR, "ArffAttrReader._encoder", chain_ifs[-1] if chain_ifs else fn, "an unknown attribute type is rejected with an exception", ok, stmt="default arm raises")
     flt = ctx.fn(RDR, "ArffAttrReader.filter")
-    ok = any(isinstance(x, ast.Compare) and unparse(x) == "line[0:10].lower() == '@attribute'" for x in walk_shallow(flt))
+    lps = [x for x in walk_shallow(flt) if isinstance(x, ast.For) and unparse(x.iter) == "lines"]
+    LV = unparse(lps[0].target) if lps else "line"
+    ok = any(isinstance(x, ast.Compare) and unparse(x) == f"{LV}[0:10].lower() == '@attribute'" for x in walk_shallow(flt))
     ctx.ob("C12.R4", RDR, "ArffAttrReader.filter", flt, "@attribute is matched case-insensitively", ok, stmt="@attribute keyword")
 
 
